@@ -29,5 +29,5 @@ def main : IO Unit := do
   | ["mode", "macro"] => loop stdin stdout macroStep
   | ["mode", "spsc"] => loopSt stdin stdout spscStep ⟨none, false⟩
   | ["mode", "off"] => loop stdin stdout offStep
-  | ["mode", "seq"] => loopSt stdin stdout seqStep ⟨Fastrace.Sys.init, 0⟩
+  | ["mode", "seq"] => loopSt stdin stdout seqStep { sys := Fastrace.Sys.init, nthreads := 0 }
   | _ => IO.eprintln "fmodel: unknown mode"; IO.Process.exit 2
